@@ -191,6 +191,14 @@ def fam_limit(seed, n_random, runs):
         calls += [{"limit": max(lims)}] * 3
         out.append(base("lim-rnd%d" % j, piped, unit, cap, inp, child, calls, runs=runs,
                         short=(rng.random() < 0.3)))
+    # limits that are "as good as none": far beyond the output, up to the largest count the type holds
+    for j, lim in enumerate([2 ** 31, 2 ** 40, 2 ** 63 - 1, 2 ** 63, 2 ** 64 - 1]):
+        for unit in (1, 4096):
+            piped = ["out", "err"] if j % 2 else ["in", "out"]
+            child = [["wr", "out", 2], ["rd", 2], ["wr", "out", 1], ["exit"]] if "in" in piped else \
+                    [["wr", "out", 2], ["wr", "err", 1], ["exit"]]
+            out.append(base("lim-huge%d-u%d" % (j, unit), piped, unit, 4 if unit == 4096 else 4096, 2, child,
+                            [{"limit": 3}, {"limit": lim}, {"limit": lim}], runs=1))
     # an echoing child and far more input than the pipes hold: every size-limited read is cut short while input is still
     # being delivered, which must go on -- exactly once -- in the later reads
     for j, (unit, cap, lim) in enumerate([(4096, 2, 1), (4096, 3, 2), (2048, 4, 3), (1024, 8, 5)]):
